@@ -406,3 +406,41 @@ Proof.
   rewrite app_nth2 by (rewrite info_run_length; auto).
   rewrite info_run_length, Nat.sub_diag. reflexivity.
 Qed.
+
+(** * Refused operations leave the Info as it was; the mask always fits the grid *)
+
+Theorem refused_unchanged : forall st op,
+  snd (info_step st op) = SRefused -> fst (info_step st op) = st.
+Proof.
+  intros st op H. destruct op; simpl in *; try discriminate; auto.
+  - destruct (mask_fits (i_shape st) m); simpl in *; [discriminate|reflexivity].
+  - destruct og as [[o g]|]; simpl in *;
+      destruct (mask_fits (i_shape st) match om with Some m => m | None => i_mask st end);
+      simpl in *; try discriminate; reflexivity.
+Qed.
+
+Definition info_wf (st : info_state) : Prop := mask_fits (i_shape st) (i_mask st) = true.
+
+Lemma info_step_wf : forall st op, info_wf st -> info_wf (fst (info_step st op)).
+Proof.
+  intros st op H. unfold info_wf in *. destruct op; simpl; auto.
+  - destruct (mask_fits (i_shape st) m) eqn:E; simpl; auto.
+  - destruct og as [[o g]|]; simpl;
+      destruct (mask_fits (i_shape st) match om with Some m => m | None => i_mask st end) eqn:E;
+      simpl; auto.
+Qed.
+
+Theorem info_final_wf : forall ops st, info_wf st -> info_wf (info_final st ops).
+Proof.
+  induction ops as [|op r IH]; intros st H; simpl; auto.
+  apply IH. apply info_step_wf. exact H.
+Qed.
+
+(** a refused step is invisible for everything that follows *)
+Theorem refused_invisible : forall st op ops,
+  snd (info_step st op) = SRefused ->
+  info_run st (op :: ops) = SRefused :: info_run st ops.
+Proof.
+  intros st op ops H. simpl. pose proof (refused_unchanged st op H) as E.
+  destruct (info_step st op) as [st' ob]. simpl in *. subst. reflexivity.
+Qed.
